@@ -71,7 +71,7 @@ DATA = {"chain": {"x": 1}, "wait": {"x": 1}, "par": {"x": 1}, "map": {"items": [
 JOIN_LOSS_POSSIBLE = {"chain": False, "wait": False, "par": True, "map": True, "parnext": False, "retry": False, "catch": False}
 
 
-def run_with_crash(name, mode, crash_at, picks, second=None, store="simple"):
+def run_with_crash(name, mode, crash_at, picks, second=None, store="simple", exec_name="e1"):
     """mode 0: no crash; 1: kill between scheduling steps (before step crash_at);
     2: crash inside a handler after broker operation number crash_at."""
     asl, wq = SCN[name]
@@ -117,7 +117,7 @@ def run_with_crash(name, mode, crash_at, picks, second=None, store="simple"):
     if mode == 2:
         b.crash_at = crash_at
     try:
-        inst.ed.publish(sim.start_event(copy.deepcopy(DATA[name]), arn, name="e1"), use_shared_queue=True)
+        inst.ed.publish(sim.start_event(copy.deepcopy(DATA[name]), arn, name=exec_name), use_shared_queue=True)
     except sim.Crash:
         restart()
         if second is not None and second > 0:
@@ -342,3 +342,27 @@ def redelivered_flag_real_transport(aio_mod: bool, quorum: bool, restart: bool) 
     n = len(q.messages) if q is not None else -1
     want = [False, True] if restart else [False]
     return out["flags"] == want and n == 1
+
+
+
+# ---------------------------------------------------------------------------
+# A start event put on the queue WITHOUT an execution name: the engine invents the name (a uuid) when it handles the
+# event.  If it dies after announcing the execution RUNNING and before acknowledging the start event, the redelivered
+# start event is given ANOTHER name: the announced execution never reaches a terminal status.
+# ---------------------------------------------------------------------------
+@condition(timeout={"quick": 120, "thorough": 300}, functions=["StateEngine.start_execution (Execution.Name generated on handling)", "notify (redelivered start event)"],
+           bounds={"quick": {"OPS": BASE["chain"][2] + 1}, "thorough": {"OPS": BASE["chain"][2] + 1}})
+def unnamed_start_inside_handler(k: int, c0: int, c1: int) -> str:
+    """
+    requires: 1 <= k <= @OPS@
+    ensures: _ == ""
+    """
+    run, terms, ncrash = run_with_crash("chain", 2, k, [c0, c1] + [0] * 10, exec_name=None)
+    started = [d["executionArn"] for d in sim.notifications() if d["status"] == "RUNNING"]
+    ended = [d["executionArn"] for d in terms]
+    lost = [a for a in started if a not in ended]
+    if lost:
+        return "C04 execution %s was announced RUNNING and never reached a terminal status after the crash (mode 2 at %d): the redelivered start event started %s instead" % (lost[0], k, [a for a in started if a != lost[0]])
+    if not terms:
+        return "C04 execution lost: no terminal notification"
+    return ""
